@@ -113,12 +113,14 @@ import "github.com/gopherjs/gopherjs/js"
 func main() {
 	println("C16/incjs/a " + js.Global.Call("c16inc", "a").String())
 	println("C16/incjs/b " + js.Global.Call("c16inc2", 20, 22).String())
+	println("C16/incjs/names " + js.Global.Call("c16names").String())
 	c := make(chan int)
 	println("C16/incjs/before-deadlock x")
 	<-c
 }
 `,
 		"a_shim.inc.js": "//! legal line comment at the very top\n// @license MIT\n/*! legal block comment */\n// ordinary comment\n$global.c16inc = function(x) { return 'inc:' + x + '//not a comment' + \"/* nor this */\"; }; // trailing comment\nconsole.log('C16/incjs/loaded a_shim');\n// @preserve a legal comment on the last line, no newline at the end of the file",
+		"c_names.inc.js": "(function() {\n  class QuotaExceeded extends Error { constructor(m) { super(m); this.name = this.constructor.name; } }\n  function handlerPut() {}\n  var table = { get: function lookupEntry() {} };\n  const arrow = () => 1;\n  $global.c16names = function() {\n    var e = new QuotaExceeded('full');\n    return [String(e), e.name, handlerPut.name, table.get.name, arrow.name, (function inner() {}).name, $global.c16names.length].join('|');\n  };\n})();\n",
 		"b_more.inc.js": "/* plain block */\n$global.c16inc2 = function(a, b) {\n  // inner comment\n  var re = /\\/\\/x/; // a regular expression with slashes\n  return String(a + b) + (re.test('//x') ? 'y' : 'n') + `tpl // ${a}`;\n};\n//# sourceURL=b_more.js\n",
 	}}
 }
